@@ -25,15 +25,24 @@ declare -A CHECKS=(
  [C18-policy-queries-sized-by-policy-count]="C18"
  [C19-append-aliases-container-blocks-concurrent]="C19 C08"
  [C20-eof-at-key-boundary-tolerated]="C20"
+ [R2-C01B-append-shares-parent-signed-blocks]="C01 C08"
+ [R2-C02A-query-loads-token-facts-into-authorizer-world]="C02 C03"
+ [R2-C07A-append-symbol-table-plain-append]="C07 C08"
+ [R2-C07B-root-key-id-zero-treated-as-absent]="C07 C16"
+ [R2-C10A-intersect-presized-result]="C10 C06"
+ [R2-C17A-append-shares-parent-signed-blocks]="C17 C08"
+ [R2-C17B-next-key-seeded-with-single-read]="C17 C20"
+ [R2-C19A-append-appends-to-parent-signed-blocks]="C19 C08"
 )
-out=seeded/MATRIX.md
+out=${OUT:-seeded/MATRIX.md}
 { echo "# Seeded changes x checks (quick tier, VERIF_SEED=${VERIF_SEED:-1}, /repo $(git -C /repo rev-parse --short HEAD))"; echo
   echo "Each row: the change was applied to /repo with git apply, the checks were run, the change was undone."; echo
   echo "| seeded change | check | exit | violations | first violation keys |"; echo "|---|---|---|---|---|"; } > $out
-for d in $(ls seeded | grep -v MATRIX); do
+for d in $(ls seeded | grep -v MATRIX | grep "${ONLY:-.}"); do
   [ -f seeded/$d/patch.diff ] || continue
   git -C /repo apply /verif/seeded/$d/patch.diff || { echo "| $d | - | patch does not apply | | |" >> $out; continue; }
-  for id in ${CHECKS[$d]}; do
+  ids="${CHECKS[$d]}"; [ -z "$ids" ] && ids=$(echo $d | sed -n 's/^R2-\(C[0-9][0-9]\).*/\1/p')
+  for id in $ids; do
     o=$(./check $id quick 2>&1); code=$?
     v=$(echo "$o" | tail -1 | sed -n 's/.*violations=\([0-9]*\).*/\1/p')
     keys=$(echo "$o" | grep '^  key=' | sed 's/^  key=//' | awk '!s[$0]++' | head -3 | tr '\n' ';' | sed 's/|/\\|/g')
